@@ -58,7 +58,16 @@ LEVEL_TEXT = {
 
 
 ENGINE_OF = {"C11": "smt-grammar", "C19": "smt-mir", "C07": "smt-mir", "C15": "smt-mir"}
+_KANI = ("Kani/CBMC bounded model checking (SAT) of the compiled Rust functions over symbolic inputs, environment stubbed, "
+         "counterexamples replayed natively")
+_MIR_HANDLE = ("; plus z3 queries over a path-by-path symbolic execution of the rustc MIR of VarlinkService::handle with the stream as a "
+               "nondeterministic stub (symbolic framing at message granularity), witnesses replayed natively")
 TECHNIQUE = {
+    "C01": _KANI + _MIR_HANDLE,
+    "C02": _KANI + _MIR_HANDLE,
+    "C06": _KANI + _MIR_HANDLE,
+    "C03": _KANI + ("; plus z3 queries over a symbolic execution of the rustc MIR of VarlinkService::new and VarlinkService::call with "
+                    "contract models for HashMap (the populated interface table), witnesses replayed natively"),
     "C15": "z3 (SMT) over a path-by-path symbolic execution of the rustc MIR of varlink::listen (dumped from /repo on every run) with "
            "the environment as nondeterministic stubs: every accept yields a connection / a timeout / an error, every read of the "
            "stop flag and the busy count an arbitrary value, time = the sum of the waits that timed out, idle_timeout symbolic; "
